@@ -284,6 +284,38 @@ def compare_family(db, seq_q, one_q, extras, coords, lists, it=None, dom=None, s
     return out
 
 
+Q_ATOMS = ('g_qbfs', 'h_qbfs', 'f_qbfs', 'g_q2d', 'f_q2d')
+Q_FAMILIES = {'Qbfs_seq': (('qpoly.Qbfs_seq', 'qpoly.Qbfs', {}, ('x',)), ORDER_LISTS),
+              'Q2d_seq': (('qpoly.Q2d_seq', 'qpoly.Q2d', {}, ('r', 't')), NM_LISTS)}
+
+
+def q_interp(db):
+    """the fixed-order interpreter with Forbes' auxiliary coefficients opaque at their (concrete) indices: they have their own rule"""
+    it, dom = mk_interp(db)
+
+    def call_prysm(fi, args, kwargs, node):
+        if fi.name == 'abc_q2d':
+            return Tup([dom.func_atom('%s_q2d' % c, list(args)) for c in 'ABC'])
+        if fi.name in Q_ATOMS:
+            return dom.func_atom(fi.name, list(args))
+        return None
+    dom.call_prysm = call_prysm
+    return it, dom
+
+
+def q_fixed_rules(run, db, rule, which):
+    """Qbfs_seq / Q2d_seq against Qbfs / Q2d for the fixed request lists; number of obligations.  AnalysisError when not followed."""
+    fam, lists = Q_FAMILIES[which]
+    fs = db.func(P + fam[0])
+    it, dom = q_interp(db)
+    n = 0
+    for label, bad in compare_family(db, *fam, lists, it=it, dom=dom):
+        n += 1
+        run.check(not bad, rule, fs.qual, 'fixed requests: ' + label, 'slot i of %s equals %s of the order requested there' % (label, fam[1].split('.')[-1]),
+                  '%s: %s' % (label, '; '.join(bad[:3])), fs.loc())
+    return n
+
+
 def fixed_order_rules(run, db, rule, families=None, only=None):
     """An additional detector next to the general (symbolic order) rules: where the interpretation can follow a family it decides it
     for the fixed order lists; where it cannot (generators, writes through views, ...) it says so in the evidence and decides
